@@ -252,3 +252,22 @@ EMPTY_STEP_IN_THREAD = dict(_case(
 THREAD_ENDS_WITH_PANIC = _case(
     _p([_s("s0", [_t("t0", [], [_LOG, {"a": "thread", "script": [_LOG, _PANIC]}, _LOG]), _t("t1", [], [_LOG], rank=2)])]),
     _cfg(1))
+
+
+# ---- round 4 -------------------------------------------------------------------------------------------------------
+# a TEST and a SUB-SUITE of one suite with the same name (the loader checks the two kinds of names separately): their
+# locations differ by the node KIND only.  The test fails — after the sub-suite's setup, tests and teardown have run (it is
+# held at a gate while the other worker goes through the sub-suite) in the first case, before them (1 worker) in the second:
+# the sub-suite's phases and tests pass either way.  In the third case the sub-suite's setup fails while the test is held
+# between two hooks: the test's body runs and the test passes, the sub-suite's own test is skipped.
+HOMONYMOUS_TEST_AND_SUBSUITE = _case(
+    _p([_s("a", [_t("login", [], [_GATE, _ERR])],
+           suites=[_s("login", [_t("t", [], [_LOG])], setup_suite={"params": [], "script": [_LOG, _LOG]}, teardown_suite=[_LOG])])]),
+    _cfg(2, "fifo"))
+HOMONYMOUS_TEST_AND_SUBSUITE_SEQ = dict(HOMONYMOUS_TEST_AND_SUBSUITE, strategy="off",
+                                        project=dict(HOMONYMOUS_TEST_AND_SUBSUITE["project"], nb_threads=1))
+HOMONYMOUS_SUBSUITE_SETUP_FAILS = _case(
+    _p([_s("a", [_t("login", [], [_LOG])], setup_test=[_GATE],
+           suites=[_s("login", [_t("t", [], [_LOG])], setup_suite={"params": [], "script": [_ERR]}, teardown_suite=[_LOG])])]),
+    _cfg(2, "fifo"))
+CONTROLS4 = [HOMONYMOUS_TEST_AND_SUBSUITE, HOMONYMOUS_TEST_AND_SUBSUITE_SEQ, HOMONYMOUS_SUBSUITE_SETUP_FAILS]
